@@ -32,6 +32,8 @@ func main() {
 		cmdGen(args)
 	case "sched":
 		cmdSched(args)
+	case "copybin":
+		cmdCopyBin(args)
 	default:
 		if f, ok := extraCmds[cmd]; ok {
 			f(args)
@@ -192,4 +194,36 @@ func cmdSched(args []string) {
 	}
 	tw.close()
 	fmt.Printf("replayed %d schedules, %d trace lines\n", len(behs), tw.lines)
+}
+
+// cmdCopyBin: binary COPY scenarios through the real row reader.
+func cmdCopyBin(args []string) {
+	fs := flag.NewFlagSet("copybin", flag.ExitOnError)
+	in := fs.String("in", "", "scenarios (ndjson)")
+	out := fs.String("out", "trace.ndjson", "abstract trace (ndjson)")
+	seed := fs.Int64("seed", 1, "seed")
+	progress := fs.String("progress", "", "progress file")
+	seedIndex := fs.Int("seedindex", 0, "seed index offset")
+	fs.String("proj", "", "unused")
+	fs.Parse(args)
+	behs := readBehaviours(*in)
+	tw := newTraceWriter(*out)
+	var pf *os.File
+	if *progress != "" {
+		pf, _ = os.Create(*progress)
+	}
+	for i, b := range behs {
+		if pf != nil {
+			pf.Seek(0, 0)
+			fmt.Fprintf(pf, "%-12d\n", i)
+		}
+		rng := rand.New(rand.NewSource(*seed*1000003 + int64(i+*seedIndex)))
+		evs, err := run.PlayCopyBin(b, rng)
+		if err != nil {
+			die("scenario %d: %v", i, err)
+		}
+		tw.writeExec(evs, i)
+	}
+	tw.close()
+	fmt.Printf("played %d scenarios, %d trace lines\n", len(behs), tw.lines)
 }
